@@ -83,12 +83,12 @@ def impl_factor(f):
 # ---------------------------------------------------------------- Coq terms
 def coq_measure(m):
     cls = "CDiagMeas" if m.get("diag") else "CMeas"
-    return "(mk_measure %s %d %d (lb3 %s) (lb2 %s) (ll %s) None None None)" % (
+    return "(@mk_measure _ LQ %s %d %d (lb3 %s) (lb2 %s) (ll %s) None None None)" % (
         cls, m["R"], m["D"], cb3(m["Lam"]), cmat(m["nu"]), cvec(m["lb"]))
 
 
 def coq_pdf(p):
-    return "(mk_pdf %s %d %d (lb3 %s) (lb2 %s) None None)" % (
+    return "(@mk_pdf _ LQ %s %d %d (lb3 %s) (lb2 %s) None None)" % (
         cbool(bool(p.get("diag"))), p["R"], p["D"], cb3(p["Sig"]), cmat(p["mu"]))
 
 
